@@ -31,7 +31,7 @@ static void arm_handlers() {
 static const long long CAN = 0x5A5A5A5A5A5A5A5ALL;
 struct Slot {
     vt::PageArena ar; char* p; size_t bytes; int side;
-    Slot(size_t b, int side_, int mis) : ar(4), bytes(b), side(side_) {
+    Slot(size_t b, int side_, int mis) : ar(4 + (b + 4095) / 4096), bytes(b), side(side_) {
         memset(ar.at_start(), 0x5A, ar.payload());
         if (side == 0) p = ar.at_end(bytes); else if (side == 1) p = ar.at_start(); else p = ar.at_start() + 4096 + mis;
     }
@@ -151,7 +151,8 @@ class C07(Check):
             "distinct = distinct (operation, type, shape, placement); non-trivial = all (each records fault, allocs, canary, full result)")
     assumptions = ["an over-read that stays inside mapped memory which is neither a guard page nor a canary byte that changes is not observed "
                    "(reads of canary bytes are invisible; only writes and page faults are) -- DESIGN section 0",
-                   "the kernel families exercised on owning tensors are matmul (lazy into a placed destination), matrix-vector and transpose; "
+                   "the kernel families exercised on owning tensors are matmul (lazy into a placed destination; every shape of the C01 plan, i.e. every dispatch "
+                   "route of MatmulDesign on every ISA), matrix-vector and transpose; "
                    "the footprint of views, einsum and linalg kernels is covered only through the values/frames of their own checks",
                    "heap calls are counted at the malloc-family level of glibc (operator new goes through malloc)"]
 
@@ -168,8 +169,32 @@ class C07(Check):
                 c["case"] = "mem/own/%s/%s/%dx%dx%d" % (c["op"], c["T"], c["M"], c["K"], c["N"])
             else:
                 c["case"] = "mem/idx/%s" % "x".join(map(str, c["shape"]))
+        # the matrix product is dispatched on (type, M, K, N, ISA) to many hand-written kernels: every shape the C01 generator derives from
+        # the dispatch model (MatmulDesign: one per route / width stratum / special kernel) is also run flush against the guard pages
+        mcfg = "GenMatmul_%s.cfg" % ctx.tier
+        mitems, gen, dist, out = tlc_emit(ctx, "GenMatmul", mcfg, env={"VERIF_SEED": str(ctx.seed)})
+        if "No error has been found" not in out:
+            raise ToolFailure("GenMatmul failed: " + out[-1500:])
+        ctx.mc_results.append({"module": "GenMatmul", "cfg": mcfg, "generated": gen, "distinct": dist, "ok": True, "wall_s": 0, "action_coverage": {}})
+        have = {c["case"] for c in items}
+        types = ("f64", "f32") if ctx.tier == "quick" else ("f64", "f32", "i32", "i64")
+        self.route_cover = {}
+        for m in mitems:
+            if m["kind"] != "mm" or m["T"] not in types:
+                continue
+            cid = "mem/own/matmul/%s/%dx%dx%d" % (m["T"], m["M"], m["K"], m["N"])
+            if cid in have:
+                continue
+            have.add(cid)
+            items.append({"fam": "own", "op": "matmul", "T": m["T"], "M": m["M"], "K": m["K"], "N": m["N"], "case": cid})
+            for isa, r in m["routes"].items():
+                self.route_cover.setdefault(isa, {}).setdefault(r, 0)
+                self.route_cover[isa][r] += 1
         items.sort(key=lambda c: c["case"])
         return items
+
+    def extra_coverage(self, ctx):
+        return {"matmul_routes_at_guard_pages": getattr(self, "route_cover", {})}
 
     def stmt(self, c):
         T = CXX_T[c["T"]]
